@@ -1197,6 +1197,47 @@ pub fn run(ctx: Ctx) -> ! {
             texts.push(r.replace('-', "_"));
             texts.push(r.replace('-', "--"));
         }
+        // RUID-shape family: every single hex position and every PAIR of hex positions substituted by each
+        // (pair of) character(s) of {'-','g','G',' ','{','}'}; length and the three separators stay in place
+        {
+            let subs = ['-', 'g', 'G', ' ', '{', '}'];
+            for r in &ruids {
+                let cs: Vec<char> = r.chars().collect();
+                let hexpos: Vec<usize> = (1..cs.len() - 1).filter(|i| ![17usize, 34, 51].contains(i)).collect();
+                for (ai, &i) in hexpos.iter().enumerate() {
+                    for a in subs {
+                        let mut one = cs.clone();
+                        one[i] = a;
+                        texts.push(one.iter().collect());
+                        for &j in &hexpos[ai + 1..] {
+                            for b in subs {
+                                let mut two = one.clone();
+                                two[j] = b;
+                                texts.push(two.iter().collect());
+                            }
+                        }
+                    }
+                }
+                // hyphen runs around each separator: k positions before and m after replaced by '-'
+                for sep in [17usize, 34, 51] {
+                    for k in 0..=6usize {
+                        for m in 0..=6usize {
+                            if k + m == 0 {
+                                continue;
+                            }
+                            let mut v = cs.clone();
+                            for d in 1..=k {
+                                v[sep - d] = '-';
+                            }
+                            for d in 1..=m {
+                                v[sep + d] = '-';
+                            }
+                            texts.push(v.iter().collect());
+                        }
+                    }
+                }
+            }
+        }
         // hyphens moved: 4 groups with lengths summing to 64 around the documented 16/16/16/16
         for a in 14..=18usize {
             for b in 14..=18usize {
